@@ -225,7 +225,7 @@ class PVLEncoder(object):
         would read the line break back as part of the string.
         """
         patterns = [r"<[^>]*>", r"'[^']*'"]
-        if self.decoder.decode_quoted_string('" \n "') != " ":
+        if self.decoder.decode_quoted_string('"a \n b"') != "a b":
             patterns.append(r'"[^"]*"')
         # In the alternation, the leftmost match wins, so a quote character
         # inside another kind of quoted string does not start an element.
